@@ -28,6 +28,15 @@ CLAIMED = {
               "infix and removes only a trailing infix. Two known findings of join are reported as KNOWN-FINDING."),
         note=TRUST + " std::string::find/substr/replace, vector::emplace_back and stringstream are assumed contracts; the glue-back/count corollaries follow from the per-piece clauses by a paper argument (DESIGN.md 5, C17).",
         ref="5 (C17)", technique="CBMC function contracts (DFCC) over abstract strings with ghost find/edit logs and loop variants"),
+    "C08": dict(
+        text=("Unbounded modular proof: formatter::{ctor, operator%, args (both overloads as one index recursion), str, operator string}, operator<<, "
+              "format()/_nf factories, make_exception (both), make_string are extracted from /repo on every run. str() is proved for symbolic format "
+              "length (to 2^40), any number k of {} matches and n arguments: raises iff n != k; otherwise the output piece list is text-before-"
+              "placeholder-i (verbatim slice of the format), argument i (whole, verbatim), ..., tail - with a loop invariant over (argument, placeholder, "
+              "input). Arguments are pieces of args_ and never reach the regex iterator, which is constructed from format_ only. make_string's message "
+              "is one piece per argument in order, streamed into a stream with default formatting state."),
+        note=TRUST + " std::sregex_iterator over the literal \\{\\} is assumed to enumerate the left-to-right non-overlapping occurrences of {} (literal checked on every run); only Char = char is bound.",
+        ref="5 (C08)", technique="CBMC function contracts (DFCC): piece-log postconditions, loop invariant, index recursion for parameter packs"),
     "C07": dict(
         text=("Same functions as C06, abstract-view postconditions: appends add at the end, erase removes one element and shifts the tail, "
               "positional emplace inserts before pos, copy yields equal elements on independent storage, move/assignment transfer the whole "
